@@ -13,7 +13,7 @@ pub fn def() -> CheckDef {
         bounds_quick: "dagger laws: W<=2,X<=1,S,T<=2,interfaces<=2 (pairs: interfaces<=1); spider accept/reject: |w|<=2, legs<=2 with symbolic codomains 0..3; fusion: |w|,|w'|<=2, legs<=2 (shared boundary <=2)",
         bounds_thorough: "dagger laws W<=3,X<=2; spiders |w|<=3, legs<=3",
         jobs,
-        budget_s: (150, 1500),
+        budget_s: (100, 1500),
     }
 }
 
